@@ -11,7 +11,7 @@ sys.path.insert(0, os.path.join(VERIF, 'gen'))
 import c06gen as G
 
 INF = G.INF
-N_THEOREMS = 32
+N_THEOREMS = 44
 NUMTOK = re.compile(r'-?\d+(?:p-?\d+)?')
 
 
@@ -375,9 +375,18 @@ def run(ck):
     if os.environ.get('VERIF_COVERAGE'):
         return coverage_run(ck)
     quick = ck.tier == 'quick'
+    # ---- 0. regenerate the definitions translated from the current source (written only if changed)
+    gen = os.path.join(LEAN, 'MpVerif', 'Gen', 'C06Prepro.lean')
+    rc, out, err = sh([sys.executable, os.path.join(VERIF, 'translators', 'gen_c06.py'), REPO, gen, os.path.join(BUILD, 'tr')], timeout=600)
+    ck.log((out.strip() or err.strip())[-300:])
+    translator_ok = rc == 0
     # ---- 1. proof obligations
-    proof_ok, failing = ck.proof_stage('MpVerif.C06.Props', 'MpVerif/C06/Props.lean', 'C06_',
-                                        ['MpVerif/C06/*.lean'], expect_min=N_THEOREMS)
+    if translator_ok:
+        proof_ok, failing = ck.proof_stage('MpVerif.C06.Props', 'MpVerif/C06/Props.lean', 'C06_',
+                                            ['MpVerif/C06/*.lean', 'MpVerif/Gen/C06Prepro.lean'], expect_min=N_THEOREMS)
+    else:
+        proof_ok, failing = False, ['translator: ' + (out + err).strip()[-300:]]
+        ck.cov.update({'obligations': N_THEOREMS, 'discharged': 0, 'checker_cmd': 'translators/gen_c06.py failed'})
     ck.log('proof stage: ok=%s failing=%s' % (proof_ok, failing[:10]))
     if ck.tier == 'thorough' and proof_ok:
         bad = ck.leanchecker(['MpVerif.C06.Props'])
